@@ -1,7 +1,7 @@
 /-
   Driver.C28 — replays the ops of go/C28 (verif-c28) on the model parser / printer of SH.Model.PromSyntax.
 
-    > parse <tokens>   →  < ok <ast> | < err          (model `parse`)
+    > parse <tokens>   →  < ok <ast> + < wf 0|1 | < err   (model `parse`, and whether the tree satisfies `wf`)
     > print <ast>      →  < toks <tokens>             (model `printExpr .fixed`, numbers/durations/strings reduced to
                                                        raw text / value exactly as the harness reduces the lexed real output)
 -/
@@ -202,7 +202,7 @@ def step (_ : Unit) (toks : List String) : Unit × List String :=
     match readToks l with
     | none => ((), ["bad-op"])
     | some ts => match parse ts with
-      | some e => ((), ["ok " ++ showExpr e])
+      | some e => ((), ["ok " ++ showExpr e, "wf " ++ b01 (wf e)])   -- hypothesis of parse_print, evaluated on the parser's output
       | none => ((), ["err"])
   | "print" :: l =>
     match readExpr l with
